@@ -44,7 +44,22 @@ func runC01(c *core.Ctx) {
 	if c.Case%50 == 0 {
 		opErrArrowProbeC01(c, g)
 	}
+	if c.Case%8 == 5 {
+		// strings from a tiny pool: adjacent layers with EQUAL texts (the comparison is differential, no tokens needed)
+		g.Str = gen.Pool([]string{"h1", "h2", "h1", "k: v", "d", "h1"})
+	}
 	t := caseTree(c, g, 7)
+	if c.Case%8 == 5 && c.Case >= gen.SweepSize() {
+		// ... in a chain of 2..9 annotation wrappers over a small tree (as in C19)
+		t = g.Tree(1 + c.R.Intn(3))
+		for i, d := 0, 2+c.R.Intn(8); i < d; i++ {
+			t = g.Around(annotKinds[c.R.Intn(len(annotKinds))], t)
+		}
+		// the same annotation applied twice in a row (same kind, same arguments)
+		if gen.Specs[t.Kind].Class == gen.Wrap && c.R.Intn(2) == 0 {
+			t = &gen.Node{Kind: t.Kind, S: append([]string(nil), t.S...), N: append([]int(nil), t.N...), Kids: []*gen.Node{t}}
+		}
+	}
 	coverTree(c, t)
 	if t.Depth() >= 3 || t.HasKind(gen.MultiKinds...) {
 		c.Nontrivial(t.Sig())
